@@ -568,7 +568,10 @@ func (av *Array) Select(predicate px.Predicate) px.List {
 }
 
 func (av *Array) Slice(i int, j int) px.List {
-	return WrapValues(av.elements[i:j])
+	// The bounds are checked against the length. What is found beyond the length, within the capacity of the
+	// backing slice, are elements of other arrays (this array may itself be a Slice of a longer one) or nil.
+	n := len(av.elements)
+	return WrapValues(av.elements[:n:n][i:j])
 }
 
 type arraySorter struct {
